@@ -1,27 +1,62 @@
 #!/usr/bin/env python3
 """Print a markdown table of the seeded changes and which checks catch them (from seeded/*/meta.json + detection.json)."""
-import json, os, sys
+import json, os, re, sys
 ROOT = os.path.dirname(os.path.dirname(os.path.abspath(__file__)))
 rows = []
+stats = {'seeds': 0, 'detected': 0, 'deductive': 0, 'native_only': 0, 'undecided': 0, 'missed': 0, 'harmless': 0, 'harmless_alarm': 0}
 for name in sorted(os.listdir(os.path.join(ROOT, 'seeded'))):
     d = os.path.join(ROOT, 'seeded', name)
     det = os.path.join(d, 'detection.json')
     meta = os.path.join(d, 'meta.json')
+    patch = os.path.join(d, 'patch.diff')
+    if not os.path.exists(patch):
+        continue
+    files = sorted(set(re.findall(r'^\+\+\+ b/(\S+)', open(patch).read(), re.M)))
     what = ''
     if os.path.exists(meta):
         m = json.load(open(meta))
         txt = (m.get('needs_to_manifest') or '').strip().split('\n')
-        what = ' '.join(t.strip() for t in txt[:2])[:170]
+        what = ' '.join(t.strip() for t in txt[:2])[:150].replace('|', '/')
+    where = ', '.join(os.path.basename(f) for f in files)
+    harmless = name.startswith('harmless')
     if not os.path.exists(det):
-        rows.append('| %s | %s | (not run) | |' % (name, what))
+        rows.append('| %s | %s | %s | (not run) |' % (name, where, what))
         continue
     j = json.load(open(det))
     cells = []
+    any_det = any_ded = any_und = False
     for p, r in j['checks'].items():
         verdict = {0: 'pass', 1: 'VIOLATION', 2: 'UNDECIDED'}.get(r['exit'], str(r['exit']))
-        obl = ', '.join(o.split(':')[-1] for o in r['failed_obligations'])[:120]
-        cells.append('%s: %s%s' % (p, verdict, (' (' + obl + ')') if obl else ''))
-    rows.append('| %s | %s | %s |' % (name, what, '; '.join(cells)))
-print('| seed | what it does | result of the check(s) |')
-print('|---|---|---|')
+        ded = [o for o in r['failed_obligations'] if not o.startswith('native-differential') and '<unreachable' not in o]
+        nat = [o for o in r['failed_obligations'] if o.startswith('native-differential')]
+        unreach = [o for o in r['failed_obligations'] if '<unreachable' in o]
+        parts = []
+        if ded:
+            parts.append('deductive: ' + ', '.join(sorted(set(o.split(':')[-1] for o in ded)))[:140])
+        if unreach:
+            parts.append('verifier could not be applied to the changed code, failing input found natively')
+        if nat:
+            parts.append('native: ' + ', '.join(o.split(':')[-1] for o in nat))
+        if r.get('undecided'):
+            parts.append('part undecided (tool limit)')
+        cells.append('%s: **%s**%s' % (p, verdict, (' — ' + '; '.join(parts)) if parts else ''))
+        any_det |= r['exit'] == 1
+        any_ded |= bool(ded) and r['exit'] == 1
+        any_und |= r['exit'] == 2
+    if harmless:
+        stats['harmless'] += 1
+        stats['harmless_alarm'] += any_det
+    else:
+        stats['seeds'] += 1
+        stats['detected'] += any_det
+        stats['deductive'] += any_ded
+        stats['native_only'] += any_det and not any_ded
+        stats['undecided'] += (not any_det) and any_und
+        stats['missed'] += (not any_det) and not any_und
+    rows.append('| %s | %s | %s | %s |' % (name, where, what, '<br>'.join(cells)))
+print('| seed | file | trigger needed | result of the check(s) |')
+print('|---|---|---|---|')
 print('\n'.join(rows))
+print()
+print('Totals: %(seeds)d property-breaking changes: %(detected)d reported as VIOLATION (%(deductive)d with at least one failed Verus/Kani obligation, %(native_only)d only through a failing input found by the native run), '
+      '%(undecided)d UNDECIDED (exit 2), %(missed)d missed (exit 0). %(harmless)d behaviour-preserving refactorings: %(harmless_alarm)d alarms.' % stats)
